@@ -31,8 +31,13 @@ func allocSink(in ssa.Instruction, op ssa.Value) (string, bool) {
 			return "make(chan) size", true
 		}
 	case ssa.CallInstruction:
-		if o := core.CalleeObj(x); o != nil && o.Pkg() != nil && o.Pkg().Path() == "bytes" && o.Name() == "Grow" {
-			return "Buffer.Grow", true
+		// every size-taking allocator of the standard library: bytes.Buffer.Grow, strings.Builder.Grow,
+		// slices.Grow, bufio.NewReaderSize / NewWriterSize, make-like helpers
+		if o := core.CalleeObj(x); o != nil && o.Pkg() != nil {
+			switch o.Pkg().Path() + "." + o.Name() {
+			case "bytes.Grow", "strings.Grow", "slices.Grow", "bufio.NewReaderSize", "bufio.NewWriterSize", "strings.Repeat", "bytes.Repeat":
+				return o.Pkg().Name() + "." + o.Name(), true
+			}
 		}
 	}
 	return "", false
